@@ -203,6 +203,14 @@ fn run_tree<X: Tree>(ctx: &mut Ctx, prop: &str, gen: &Gen, vm: &str) {
                 if vals.len() >= 65536 {
                     ctx.count("large_cases");
                 }
+                if path == 1 {
+                    // copies: a deserialized value and a clone keep no more than the bound either
+                    let bytes = bincode::serialize(&t).unwrap();
+                    let (d, dheap) = measured(|| bincode::deserialize::<X>(&bytes).unwrap());
+                    check_le(ctx, "retained bits", format!("deserialized copy: n={} max={} levels={}", vals.len(), m, levels), 8.0 * (dheap + std::mem::size_of_val(&d)) as f64, bound);
+                    let (c, cheap) = measured(|| t.clone());
+                    check_le(ctx, "retained bits", format!("clone: n={} max={} levels={}", vals.len(), m, levels), 8.0 * (cheap + std::mem::size_of_val(&c)) as f64, bound);
+                }
             }
         }
         "C15" => {
@@ -262,6 +270,13 @@ fn run_tree<X: Tree>(ctx: &mut Ctx, prop: &str, gen: &Gen, vm: &str) {
             for path in [1u8, 2] {
                 let (t, heap) = build_measured::<X>(&vals, path);
                 check_reported(ctx, &t, heap, comps, slack, &format!("{} (n={}, max={}, path {})", X::name(), vals.len(), m, path));
+                if path == 1 {
+                    let bytes = bincode::serialize(&t).unwrap();
+                    let (d, dheap) = measured(|| bincode::deserialize::<X>(&bytes).unwrap());
+                    check_reported(ctx, &d, dheap, comps, slack, &format!("deserialized {} (n={}, max={})", X::name(), vals.len(), m));
+                    let (c, cheap) = measured(|| t.clone());
+                    check_reported(ctx, &c, cheap, comps, slack, &format!("clone of {} (n={}, max={})", X::name(), vals.len(), m));
+                }
             }
         }
         p => panic!("{p}"),
@@ -351,12 +366,29 @@ fn run_quad<X: QuadRS>(ctx: &mut Ctx, prop: &str, gen: &Gen) {
             3 => X::collect_filtered(&q),
             k => X::collect_hinted(&q, k - 3),
         });
+        let derived: Vec<(&str, X, usize)> = if path == 0 {
+            let bytes = bincode::serialize(&t).unwrap();
+            let (d, dh) = measured(|| bincode::deserialize::<X>(&bytes).unwrap());
+            let (c, ch) = measured(|| t.clone());
+            vec![("deserialized copy", d, dh), ("clone", c, ch)]
+        } else {
+            vec![]
+        };
         match prop {
             "C14" => {
                 let bits = 8.0 * (heap + std::mem::size_of_val(&t)) as f64;
-                check_le(ctx, "retained bits", format!("construction path {path}: n={}", q.len()), bits, (1.0 + r + 0.01) * 2.0 * n + 8.0 * (C_LEVEL + C0));
+                let bound = (1.0 + r + 0.01) * 2.0 * n + 8.0 * (C_LEVEL + C0);
+                check_le(ctx, "retained bits", format!("construction path {path}: n={}", q.len()), bits, bound);
+                for (what, d, dh) in &derived {
+                    check_le(ctx, "retained bits", format!("{what}: n={}", q.len()), 8.0 * (dh + std::mem::size_of_val(d)) as f64, bound);
+                }
             }
-            "C16" => check_reported(ctx, &t, heap, 3, 0, &format!("{} (n={}, path {path})", X::NAME, q.len())),
+            "C16" => {
+                check_reported(ctx, &t, heap, 3, 0, &format!("{} (n={}, path {path})", X::NAME, q.len()));
+                for (what, d, dh) in &derived {
+                    check_reported(ctx, d, *dh, 3, 0, &format!("{what} of {} (n={})", X::NAME, q.len()));
+                }
+            }
             _ => {}
         }
     }
@@ -520,14 +552,14 @@ fn enumerate(args: &Args) -> Vec<SpCase> {
     if prop == "C14" || prop == "C16" {
         let aliases: Vec<&str> = if prop == "C14" { PLAIN_QUAD.iter().copied().chain(["WT"]).collect() } else { PLAIN_QUAD.iter().chain(HUFF_QUAD.iter()).copied().chain(["WT", "HWT"]).collect() };
         for &n in &lens {
-            for (sigma, elem, vm) in [(1u32, "u8", "id"), (2, "u8", "id"), (4, "u8", "id"), (5, "u8", "id"), (16, "u8", "id"), (17, "u16", "id"), (256, "u16", "id"), (257, "u16", "id"), (1000, "u16", "id"), (16, "u64", "spread"), (4, "u32", "spread")] {
-                if n > 70_000 && (elem == "u64" || elem == "u32") && !th {
+            for (sigma, elem, vm) in [(1u32, "u8", "id"), (2, "u8", "id"), (4, "u8", "id"), (5, "u8", "id"), (16, "u8", "id"), (17, "u16", "id"), (256, "u16", "id"), (257, "u16", "id"), (1000, "u16", "id"), (16, "u64", "spread"), (4, "u32", "spread"), (2, "u128", "wide"), (3, "u128", "wide"), (2, "u64", "wide")] {
+                if n > 70_000 && (elem == "u64" || elem == "u32" || elem == "u128") && !th {
                     continue;
                 }
                 for pat in [Pat::Periodic, Pat::Blocks, Pat::Rare(1)] {
                     for &al in &aliases {
                         let huff = al.starts_with('H');
-                        if huff && vm == "spread" {
+                        if huff && (vm == "spread" || vm == "wide") {
                             continue; // a 2^64-entry table cannot exist
                         }
                         if n > 300_000 && !(pat == Pat::Periodic) {
@@ -603,6 +635,9 @@ fn enumerate(args: &Args) -> Vec<SpCase> {
         profiles.push(geom4(9));
         profiles.push(geom4(10));
         profiles.push(chain2(12));
+        profiles.push(chain2(17));
+        profiles.push(chain2(18));
+        profiles.push(chain2(21));
         profiles.push((1..=200u32).collect());
         for p in &profiles {
             for &s in scales {
